@@ -752,6 +752,18 @@ def run_property(ctx, res, prop, groups, oracle, only=None, rule='', spin=None):
                                                'case': script_of(r), 'config': r['config']})
                     continue
             if sv:
+                # a crash / hang of a multi-rank launch that does not reproduce in 3 more launches of the same script is
+                # recorded in the evidence (res.notes), not reported: oversubscribed mpiexec launches are not perfectly reliable
+                if r['config']['nranks'] > 1 and not r.get('is_rerun'):
+                    again = []
+                    for _k in range(3):
+                        rr = run_real(exe, [r['lines']], ctx.run_dir, 'rerun', nranks=r['config']['nranks'], cores=r['config']['cores'],
+                                      sched=r['config']['sched'], timeout=120, spin=spin)
+                        again += [x for x in rr if status_violation(x, prop)]
+                    if not again:
+                        res.notes.append('unreproduced %s (0 of 3 re-launches): %s' % (sv['key'][:160], sv['what'][:200]))
+                        res.extra['unreproduced_launch_failures'] = res.extra.get('unreproduced_launch_failures', 0) + 1
+                        continue
                 res.violations.append(sv)
                 continue
             if fails:
